@@ -70,3 +70,10 @@ Definition acr_example_check (Ss Se : nat) (Al : Z) : bool :=
       end
   | None => false
   end.
+
+(* computed once here (cached .vo), only referenced from props/C03.v *)
+Lemma eobrun_example_ok : eobrun_example_check 32800 = true.
+Proof. vm_compute. reflexivity. Qed.
+Lemma acr_examples_ok :
+  acr_example_check 1 63 1 = true /\ acr_example_check 1 63 0 = true /\ acr_example_check 2 40 1 = true.
+Proof. repeat split; vm_compute; reflexivity. Qed.
